@@ -35,7 +35,13 @@ func (e *kvElection) validationLoop(ctx context.Context) {
 				return
 			}
 
-			validationCtx, cancel := context.WithTimeout(ctx, defaultValidationTimeout)
+			// Like the heartbeat write, the validation read gets at least half a heartbeat
+			// interval: a store that answers within that time is healthy, not unreachable
+			validationTimeout := defaultValidationTimeout
+			if half := e.cfg.HeartbeatInterval / 2; half > validationTimeout {
+				validationTimeout = half
+			}
+			validationCtx, cancel := context.WithTimeout(ctx, validationTimeout)
 			isValid, err := e.validateToken(validationCtx)
 			cancel()
 
